@@ -153,17 +153,23 @@ def parse_kani(out, res):
     # failed: distinguish unwinding failures (bound too small => inconclusive)
     only_unwind = res.failed_checks and all('unwinding assertion' in f for f in res.failed_checks)
     res.status = 'unwind' if only_unwind else 'failed'
-    # concrete playback
-    pb = re.search(r'let concrete_vals: Vec<Vec<u8>> = vec!\[(.*?)\];', out, re.S)
-    if pb:
-        items = []
-        for vm in re.finditer(r'vec!\[([^\]]*)\]', pb.group(1)):
-            body = vm.group(1).strip()
-            items.append([int(x) for x in body.split(',') if x.strip()] if body else [])
-        res.playback = items
+    # concrete playback: one generated unit test per failed check *and* per satisfied cover;
+    # take the one that belongs to a failed (non-cover) check
+    for blk in re.finditer(r'/// Check for `(\w+)`: "([^\n]*)"\s*\n(.*?)kani::concrete_playback_run', out, re.S):
+        kind, _desc, body = blk.group(1), blk.group(2), blk.group(3)
+        if kind == 'cover' or 'unwinding assertion' in _desc:
+            continue
+        pb = re.search(r'let concrete_vals: Vec<Vec<u8>> = vec!\[(.*?)\];', body, re.S)
+        if pb:
+            items = []
+            for vm in re.finditer(r'vec!\[([^\]]*)\]', pb.group(1)):
+                b = vm.group(1).strip()
+                items.append([int(x) for x in b.split(',') if x.strip()] if b else [])
+            res.playback = items
+            break
 
 
-def kani_run(crate_dir, harness, target_dir, timeout, extra=(), playback=True, mem_gb=24):
+def kani_run(crate_dir, harness, target_dir, timeout, extra=(), playback=True, mem_gb=12):
     res = KaniResult(harness)
     cmd = ['cargo', 'kani', '--harness', harness, '--exact', '--target-dir', target_dir]
     if playback:
